@@ -21,6 +21,18 @@ type c22Sched struct {
 	par    []int // parents of blocks 1..
 	ops    []string
 	nextID int
+	set    int   // the authority set the generated round belongs to
+	nset   int   // number of voters of that set
+	prims  []int // its voters in order (nil: 0..n-1)
+	script []int // the scripted keys of the round (nil: the Byzantine voters)
+}
+
+// bvote appends a scripted vote of key j for (set, round q).
+func (s *c22Sched) bvote(stage string, j, q, blk int) int {
+	if s.set == 0 {
+		return s.vote("bv %s v%d r%d b%d", stage, j, q, blk)
+	}
+	return s.vote("bv %s v%d s%d r%d b%d", stage, j, s.set, q, blk)
 }
 
 func (s *c22Sched) size() int { return len(s.par) + 1 }
@@ -167,20 +179,31 @@ func (s *c22Sched) round(q int, lossy bool) {
 	if lossy {
 		num, den = 2, 3
 	}
-	thr := 2 * s.n / 3
+	nset := s.n
+	if s.nset > 0 {
+		nset = s.nset
+	}
+	script := s.byzL
+	if s.script != nil {
+		script = s.script
+	}
+	thr := 2 * nset / 3
 	var pvs, pcs []int
 	// every third round the primary (voters[round % n]) votes first and its prevote reaches the others before
 	// they prevote: determinePreVote then copies the primary's block when its number is not below the head's
 	prim := -1
 	if r.Chance(1, 3) {
-		prim = q % s.n
+		prim = q % nset
+		if s.prims != nil {
+			prim = s.prims[q%nset]
+		}
 		var id int
 		if s.byz[prim] {
 			blk := r.Intn(s.size())
 			if r.Chance(1, 3) {
 				blk = 0
 			}
-			id = s.vote("bv pv v%d r%d b%d", prim, q, blk)
+			id = s.bvote("pv", prim, q, blk)
 		} else {
 			if r.Chance(1, 3) {
 				s.op("best v%d b%d", prim, r.Pick(0, 0, 1, r.Intn(s.size())))
@@ -199,7 +222,7 @@ func (s *c22Sched) round(q int, lossy bool) {
 			pvs = append(pvs, s.vote("pv v%d", i))
 		}
 	}
-	for _, j := range s.byzL {
+	for _, j := range script {
 		for k := r.Intn(3); k > 0; k-- {
 			q2 := q
 			if r.Chance(1, 12) {
@@ -212,7 +235,7 @@ func (s *c22Sched) round(q int, lossy bool) {
 			if r.Chance(1, 4) {
 				blk = r.Intn(s.size())
 			}
-			pvs = append(pvs, s.vote("bv pv v%d r%d b%d", j, q2, blk))
+			pvs = append(pvs, s.bvote("pv", j, q2, blk))
 		}
 	}
 	exact := -1
@@ -226,13 +249,13 @@ func (s *c22Sched) round(q int, lossy bool) {
 	for _, i := range s.shuffle(s.hon) {
 		pcs = append(pcs, s.vote("pc v%d", i))
 	}
-	for _, j := range s.byzL {
+	for _, j := range script {
 		for k := r.Intn(3); k > 0; k-- {
 			blk := ls[r.Intn(len(ls))]
 			if r.Chance(1, 4) {
 				blk = r.Intn(s.size())
 			}
-			pcs = append(pcs, s.vote("bv pc v%d r%d b%d", j, q, blk))
+			pcs = append(pcs, s.bvote("pc", j, q, blk))
 		}
 	}
 	if r.Chance(1, 4) { // late prevotes
@@ -353,12 +376,207 @@ func c22GenFork(r *vhRng) string {
 	return s.line()
 }
 
+func c22KeyList(ks []int) string {
+	strs := make([]string, len(ks))
+	for i, k := range ks {
+		strs[i] = "v" + strconv.Itoa(k)
+	}
+	return strings.Join(strs, ",")
+}
+
+// c22GenSetChange: a round in set 0 with a pending authority change at a block of the main chain (the code caps
+// its votes there), then one or two rounds in set 1: some voters retire, and the retired keys — outside every
+// budget, whoever they were — keep sending votes for the new set.
+func c22GenSetChange(r *vhRng) string {
+	s := c22NewSched(r)
+	// the handover block: a block of depth >= 1
+	x := 1 + r.Intn(s.size()-1)
+	if r.Chance(1, 2) {
+		for s.depth(x) > 1 {
+			x = s.par[x-1]
+		}
+	}
+	// the new set: retire 1..3 keys, keep at least 2 voters and the 1/3 bound
+	keep := s.shuffle(c22Range(s.n))
+	retire := 1 + r.Intn(3)
+	if retire > s.n-2 {
+		retire = s.n - 2
+	}
+	retired, members := keep[:retire], keep[retire:]
+	for {
+		nb := 0
+		for _, k := range members {
+			if s.byz[k] {
+				nb++
+			}
+		}
+		if 3*nb < len(members) || r.Chance(1, 10) {
+			break
+		}
+		for i, k := range members { // retire one more Byzantine voter
+			if s.byz[k] {
+				retired = append(retired, k)
+				members = append(members[:i:i], members[i+1:]...)
+				break
+			}
+		}
+	}
+	if !r.Chance(1, 3) { // keep the order of the keys most of the time
+		for i := range members {
+			for j := i + 1; j < len(members); j++ {
+				if members[j] < members[i] {
+					members[i], members[j] = members[j], members[i]
+				}
+			}
+		}
+	}
+	// the change is part of block x: everybody who votes for x or a descendant knows it
+	s.op("chg b%d %s", x, c22KeyList(members))
+	s.round(1, false)
+	old := s.nextID
+	s.set, s.nset, s.prims = 1, len(members), members
+	var hon []int
+	s.script = []int{}
+	for _, k := range members {
+		if s.byz[k] {
+			s.script = append(s.script, k)
+		} else {
+			hon = append(hon, k)
+		}
+	}
+	s.script = append(s.script, retired...)
+	if r.Chance(1, 6) { // the retired honest keys try to go on
+		for _, k := range retired {
+			if !s.byz[k] {
+				s.op("pv v%d", k)
+				s.nextID++
+			}
+		}
+	}
+	s.hon = hon
+	if len(hon) == 0 {
+		return s.line()
+	}
+	if old > 0 && r.Chance(1, 4) { // votes of the old set reach voters of the new one
+		for _, to := range hon {
+			s.op("d m%d v%d", r.Intn(old), to)
+		}
+	}
+	rounds := 1 + r.Intn(2)
+	for q := 1; q <= rounds; q++ {
+		s.round(q, r.Chance(1, 4))
+	}
+	return s.line()
+}
+
+// c22GenRetired: the handover block 1 is finalised by everybody in set 0; in set 1 the honest voters split over the
+// forks 2 and 3 so that neither has a supermajority — unless the votes of the retired keys (sent for both forks)
+// were counted.  tree 0 <- 1 <- 2, 1 <- 3.
+func c22GenRetired(r *vhRng) string {
+	s := &c22Sched{r: r, byz: map[int]bool{}}
+	nb := r.Intn(3)                 // Byzantine voters that stay
+	nh := 3*nb + 1 + r.Intn(4)      // honest voters that stay: the new set keeps its bound
+	nr := 1 + r.Intn(3)             // retired (honest in set 0)
+	s.n = nh + nb + nr
+	if s.n > 12 {
+		nr = 12 - nh - nb
+		s.n = 12
+	}
+	if 3*nb >= s.n { // set 0 must keep its bound as well
+		nb = (s.n - 1) / 3
+	}
+	s.par = []int{0, 1, 1}
+	for i := 0; i < s.n; i++ {
+		if i >= nh && i < nh+nb {
+			s.byz[i] = true
+			s.byzL = append(s.byzL, i)
+		} else {
+			s.hon = append(s.hon, i)
+		}
+	}
+	members := c22Range(nh + nb)
+	retired := c22Range(s.n)[nh+nb:]
+	s.op("chg b1 %s", c22KeyList(members))
+	// set 0, round 1: everybody is on the fork of block 2; the votes are capped at block 1
+	for _, i := range s.hon {
+		s.op("best v%d b2", i)
+	}
+	var pvs, pcs []int
+	for _, i := range s.hon {
+		pvs = append(pvs, s.vote("pv v%d", i))
+	}
+	s.deliver(pvs, 1, 1, -1)
+	for _, i := range s.hon {
+		pcs = append(pcs, s.vote("pc v%d", i))
+	}
+	s.deliver(pcs, 1, 1, -1)
+	for _, i := range s.hon {
+		s.op("fin v%d", i)
+	}
+	// set 1, round 1: the honest voters split
+	s.set, s.nset = 1, nh+nb
+	g1 := (nh + 1) / 2
+	pvs, pcs = nil, nil
+	for i := 0; i < nh; i++ {
+		b := 2
+		if i >= g1 {
+			b = 3
+		}
+		s.op("best v%d b%d", i, b)
+	}
+	for i := 0; i < nh; i++ {
+		pvs = append(pvs, s.vote("pv v%d", i))
+	}
+	var pv2, pv3, pc2, pc3 []int
+	for _, j := range append(append([]int{}, s.byzL...), retired...) {
+		pv2 = append(pv2, s.bvote("pv", j, 1, 2))
+		pv3 = append(pv3, s.bvote("pv", j, 1, 3))
+	}
+	for to := 0; to < nh; to++ { // the scripted keys tell every group what it likes to hear
+		ids := append(append([]int{}, pvs...), pv2...)
+		if to >= g1 {
+			ids = append(append([]int{}, pvs...), pv3...)
+		}
+		if r.Chance(1, 5) {
+			ids = append(ids, pv2...)
+			ids = append(ids, pv3...)
+		}
+		for _, id := range s.shuffle(ids) {
+			s.op("d m%d v%d", id, to)
+		}
+	}
+	for i := 0; i < nh; i++ {
+		pcs = append(pcs, s.vote("pc v%d", i))
+	}
+	for _, j := range append(append([]int{}, s.byzL...), retired...) {
+		pc2 = append(pc2, s.bvote("pc", j, 1, 2))
+		pc3 = append(pc3, s.bvote("pc", j, 1, 3))
+	}
+	for to := 0; to < nh; to++ {
+		ids := append(append([]int{}, pcs...), pc2...)
+		if to >= g1 {
+			ids = append(append([]int{}, pcs...), pc3...)
+		}
+		for _, id := range s.shuffle(ids) {
+			s.op("d m%d v%d", id, to)
+		}
+	}
+	for i := 0; i < nh; i++ {
+		s.op("fin v%d", i)
+	}
+	return s.line()
+}
+
 func c22Gen(r *vhRng) string {
 	switch x := r.Intn(100); {
 	case x < 3:
 		return fmt.Sprintf("thr %d", r.Intn(201))
-	case x < 13:
+	case x < 12:
 		return c22GenFork(r)
+	case x < 32:
+		return c22GenSetChange(r)
+	case x < 40:
+		return c22GenRetired(r)
 	default:
 		return c22GenRandom(r)
 	}
